@@ -12,6 +12,7 @@ DRIVERS = {
     'pp_reader': {'src': 'replay/drivers/pp_reader.cpp', 'flags': [], 'search_arg': '7'},
     'call_binary': {'vm': 'call_binary'},
     'sqf_yylex': {'vm': 'sqf_yylex'},
+    'runtime_core': {'vm': 'runtime_core'},
     'runtime_execute': {'vm': 'runtime_step'},
     'runtime_sched': {'vm': 'runtime_step'},
     'frame': {'vm': 'runtime_step'},
@@ -162,7 +163,10 @@ def run_known_replay(k):
             lines = [l for l in p.stdout.decode('utf-8', 'replace').split('\n') if '->' in l]
             if len(lines) <= rp['index']: return False, 'sequence did not complete: ' + p.stderr.decode('utf-8', 'replace')[-200:]
             m = re.search(r"-> (-?\d+) ", lines[rp['index']])
-            return (m is not None and int(m.group(1)) == rp['bad_rc']), lines[rp['index']][:300]
+            ok = m is not None
+            if ok and 'bad_rc' in rp: ok = int(m.group(1)) == rp['bad_rc']
+            if ok and 'bad_log' in rp: ok = rp['bad_log'] in lines[rp['index']]
+            return ok, lines[rp['index']][:300]
         if kind == 'sqfvm':
             import vmreplay
             return vmreplay.run(rp)
